@@ -26,7 +26,7 @@ from ..run import Result
 
 PROP = 'C17'
 
-FILES = ['a.ipynb', 'sub/b.ipynb', 'sub/deep/c.ipynb', 'notes.txt']
+FILES = ['a.ipynb', 'sub/b.ipynb', 'sub/deep/c.ipynb', 'notes.txt', 'sub/sub/d.ipynb']     # sub/sub: a directory named like the one it lies in
 MOVES = [('a.ipynb', 'moved.ipynb'), ('sub/b.ipynb', 'sub/deep/b2.ipynb'), ('notes.txt', 'notes2.txt')]
 ALL_PATHS = FILES + [m[1] for m in MOVES]
 
@@ -118,6 +118,7 @@ def make_root(repo, kind):
     git(repo, 'commit', '-q', '-m', 'root')
     if kind == 'full':
         for f in FILES:
+            os.makedirs(os.path.dirname(os.path.join(repo, f)), exist_ok=True)
             with open(os.path.join(repo, f), 'w', encoding='utf8') as fh:
                 fh.write(content(f, 0))
         git(repo, 'add', '-A')
@@ -156,8 +157,8 @@ def state_key(repo):
 
 CWDS = ['.', 'sub', 'sub/deep']
 FILTERS = {
-    '.': [None, ['a.ipynb'], ['sub'], ['sub/deep/c.ipynb'], ['notes.txt']],
-    'sub': [None, ['b.ipynb'], ['deep']],
+    '.': [None, ['a.ipynb'], ['sub'], ['sub/deep/c.ipynb'], ['notes.txt'], ['sub/sub/d.ipynb']],
+    'sub': [None, ['b.ipynb'], ['deep'], ['sub/d.ipynb'], ['sub']],
     'sub/deep': [None, ['c.ipynb']],
 }
 
